@@ -78,18 +78,20 @@ extern ssize_t mpt_memtok(const struct iovec *data, size_t ndat, const char *tok
 				break;
 			/* continue until end of line */
 			do {
-				while ( pos++ < len && *(++curr) != '\n' );
+				while ( ++pos < len && *(++curr) != '\n' );
 				
-				if ( pos <= len )
+				if ( pos < len )
 					break;
-				else if ( i >= ndat ) {
-					errno = EAGAIN; return -2;
-				}
-				pos  = 0;
-				curr = data[i].iov_base;
-				len  = data[i++].iov_len;
+				/* first character of next non-empty data part */
+				do {
+					if ( i >= ndat ) {
+						errno = EAGAIN; return -2;
+					}
+					curr = data[i].iov_base;
+				} while ( !(len = data[i++].iov_len) );
+				pos = 0;
 				
-			} while ( 1 );
+			} while ( *curr != '\n' );
 		}
 		/* token is found */
 		if ( tok ) {
